@@ -129,7 +129,9 @@ macro_rules! impl_numeric_cast {
 
         // cast for string type
         impl Cast<String> for $T {
-            #[inline] fn cast(self) -> String { self.to_string() }
+            #[inline] fn cast(self) -> String {
+                if self.is_none() { "None".to_string() } else { self.to_string() }
+            }
         }
 
         impl Cast<String> for Option<$T> {
@@ -140,17 +142,23 @@ macro_rules! impl_numeric_cast {
 
         #[cfg(feature="time")]
         impl<U: TimeUnitTrait> Cast<DateTime<U>> for $T {
-            #[inline] fn cast(self) -> DateTime<U> { Cast::<i64>::cast(self).into() }
+            #[inline] fn cast(self) -> DateTime<U> {
+                if self.is_none() { DateTime::nat() } else { Cast::<i64>::cast(self).into() }
+            }
         }
 
         #[cfg(feature="time")]
         impl Cast<TimeDelta> for $T {
-            #[inline] fn cast(self) -> TimeDelta { Cast::<i64>::cast(self).into() }
+            #[inline] fn cast(self) -> TimeDelta {
+                if self.is_none() { TimeDelta::nat() } else { Cast::<i64>::cast(self).into() }
+            }
         }
 
         #[cfg(feature="time")]
         impl Cast<Time> for $T {
-            #[inline] fn cast(self) -> Time { Cast::<i64>::cast(self).into() }
+            #[inline] fn cast(self) -> Time {
+                if self.is_none() { Time::nat() } else { Cast::<i64>::cast(self).into() }
+            }
         }
 
 
